@@ -75,8 +75,10 @@ Inductive c03_case :=
 (* HTTP/2: declared length, END_STREAM on HEADERS, "connection ended before any response
    HEADERS", the stream's events, all DATA bytes sent, what the caller saw, and whether the
    follow-up request was served by the same connection *)
-| H2Case (cl : option N) (hdr_end no_headers : bool) (evs : list h2ev) (sent : bytes)
-         (seen : h2_seen) (next_on_same_conn : bool)
+| H2Case (cl : option N) (hdr_end no_headers : bool) (evs : list h2ev)
+         (wire : option (N * bytes))   (* stream id, every byte the peer wrote on the connection
+                                          behind the response HEADERS frame *)
+         (sent : bytes) (seen : h2_seen) (next_on_same_conn : bool)
 | H1GzCuts (hlen : N) (fr : framing) (wire z : bytes) (plain_len : N) (obs : list (N * option (bool * N)))
 (* one response stream cut at the listed offsets (the peer closes after k bytes) *)
 | H1Cuts (hlen : N) (fr : framing) (wire body : bytes) (obs : list (N * h1_seen))
@@ -107,7 +109,7 @@ Definition c03_check (c : c03_case) : bool :=
                   bytes_eqb d' d && h3wres_eqb (W3 e') r
                 else true)
         end
-  | H2Case cl hdr_end no_headers evs sent seen same =>
+  | H2Case cl hdr_end no_headers evs wire sent seen same =>
       if no_headers then
         match seen with H2SeenCallErr => negb same | _ => false end
       else
@@ -118,6 +120,14 @@ Definition c03_check (c : c03_case) : bool :=
             h2err_eqb e e' && (N.of_nat (length d) =? dlen)%N && pok
             && bytes_eqb d (firstn_N dlen sent)
             && Bool.eqb (if hdr_end then true else h2_conn_usable evs) same
+            && match wire with
+               | None => true
+               | Some (sid, w) =>
+                   (* the same exchange from the bytes on the connection: frames parsed by
+                      Model/H2Frame.v read_frames, padding stripped, cut frames dropped *)
+                   let '(d', e') := h2_read cl hdr_end (h2_wire_events sid 16777215 w) in
+                   bytes_eqb d' d && h2err_eqb e' e
+               end
         end
   | H1GzCuts hlen fr wire z plen obs =>
       forallb (fun ko => gz_matches z plen (h1_read hlen fr (firstn_N (fst ko) wire)) (snd ko)) obs
